@@ -4,6 +4,7 @@ import io
 import itertools
 import os
 import shutil
+import signal
 import tempfile
 
 import common
@@ -30,10 +31,18 @@ MODELLED_NOT_VERIFIED = [
     "C19: the reader behind concatenate_from_streams/_paths is abstract in the theorems; the driver instantiates it with the "
     "protocol's matrix parser, and an unreadable NEXUS source / a missing path is compared as ParseError / OpenError only",
     "C19: new_character_subset is generated with non-negative indices only (the model's index sets are lists of naturals)",
+    "C19: that the same namespace identity `ns` always carries the same member list is an invariant of the protocol (one Python "
+    "object), enforced by the driver (`coherent`, else bad-op) and assumed as `o.taxa = m.taxa` / `OpOK` in wf_preserved, concat_wf, "
+    "history_wfn; the model's guards compare `ns` only",
+    "C19: spans, namedSpans, selectFrom, iter, Concatenable, WF/WFN, OpOK are specification-side definitions (right-hand sides and "
+    "hypotheses); the driver does not execute them",
+    "C19: hang detection counts process CPU time (2 s; 40 s wall backstop), so machine load cannot produce a Timeout",
+    "C19: concatenate([]) and a namespace without taxa raise IndexError in the library; treated as outside the statement, compared "
+    "with the model only (thorough tier)",
     "C19: 'arguments unchanged' and absence of aliasing are checked by fingerprinting every matrix of the pool before and after "
     "each call (value semantics make them trivial in the model); namespaces are not mutated during a history",
 ]
-EXPLANATION = ("74 theorems in Props/C19.lean about the definitions drv_c19 runs (Model/C19.lean, Model/C19Ext.lean), none _partial. "
+EXPLANATION = ("81 theorems in Props/C19.lean about the definitions drv_c19 runs (Model/C19.lean, Model/C19Ext.lean), none _partial. "
                "(d) add_spec, replace_spec, update_spec, extend_spec, extendMatrix_spec/_eq, remove_spec / remove_untouched / remove_ok_iff / "
                "remove_partial_state, discard_spec, keep_spec, rowOp_spec. Element access: getItem_spec (matrix[taxon] creates a missing row), "
                "getItem_idempotent, setItem_spec, newSequence_spec, delItem_spec, itemsOf_spec (namespace order), maxSeqSize_spec. "
@@ -44,7 +53,12 @@ EXPLANATION = ("74 theorems in Props/C19.lean about the definitions drv_c19 runs
                "concat_subsets, concat_rounds, concat_subset_width/_covers, concat_all_present, concat_subset_labels, concat_labels_kept, "
                "concat_names_distinct, concat_same_namespace, concat_export_roundtrip (exporting the subset recorded for a source gives back "
                "its rows); fromStreams_eq_concatenate, fromStreams_reader_error, fromStreams_rows, fromPaths_eq_fromStreams, "
-               "fromPaths_open_error (abstract reader/open). Histories: keys_nodup_preserved, keys_invariant_preserved, wf_preserved, "
+               "fromPaths_open_error (abstract stateless reader/open: unfoldings of the two loops); fromStreamsNS_eq / "
+               "fromStreamsNS_incomplete_refused (the shared namespace that grows while streams are read: a stream lacking a taxon any "
+               "stream introduced makes the call a ValueError). concat_get? (exact rows of the result: a row for every namespace "
+               "taxon and no other, no missing=empty reading), concat_probe_pure / concat_probes_pure (the cm[0] probe does not write). "
+               "Histories: history_wfn (ONE theorem over the history object Op/step/run, which the driver executes as op `history` and the "
+               "harness compares per pool slot: along any call sequence the matrix stays WFN = WF + duplicate-free namespace), step_wfn,  keys_nodup_preserved, keys_invariant_preserved, wf_preserved, "
                "concat_wf, concat_keys_nodup (well-formedness is invariant under every operation, so the hypotheses compose along any "
                "history). (e) termination: all model functions total; padLoop and freeFrom are well-founded recursions without fuel; "
                "measures explicit in padLoop_measure_step, freeFrom_probes_bound (Model: pending_decreases), delLoop_length_le; "
@@ -176,6 +190,31 @@ def enc_matrix(env, s):
     return " ".join(toks)
 
 
+# ------------------------------------------------------------------------------------------------ hang detection
+class cpu_limit(object):
+    """raises Timeout after `seconds` of PROCESS CPU time (ITIMER_PROF), so that a loaded or paused machine cannot turn a
+    microsecond call into a 'hang'; a generous wall-clock alarm is kept as a backstop for a call that blocks"""
+
+    def __init__(self, seconds, wall=40.0):
+        self.seconds, self.wall = seconds, wall
+
+    def _handler(self, signum, frame):
+        raise Timeout()
+
+    def __enter__(self):
+        self.old_prof = signal.signal(signal.SIGPROF, self._handler)
+        self.old_alrm = signal.signal(signal.SIGALRM, self._handler)
+        signal.setitimer(signal.ITIMER_REAL, self.wall)
+        signal.setitimer(signal.ITIMER_PROF, self.seconds)
+
+    def __exit__(self, *a):
+        signal.setitimer(signal.ITIMER_PROF, 0)
+        signal.setitimer(signal.ITIMER_REAL, 0)
+        signal.signal(signal.SIGPROF, self.old_prof)
+        signal.signal(signal.SIGALRM, self.old_alrm)
+        return False
+
+
 # ------------------------------------------------------------------------------------------------ argument kinds
 # every parameter documented as "a list or some other iterable" is driven with each of these; the result must not
 # depend on the kind.  ONE_SHOT kinds can be traversed only once; DEDUP kinds drop repetitions (used when there are
@@ -234,7 +273,7 @@ def execute(env, pool, op):
     """returns (status, result)"""
     name = op["op"]
     try:
-        with time_limit(TL):
+        with cpu_limit(TL):
             if name == "concat":
                 return "ok", env.cls.concatenate([pool[i] for i in op["args"]])
             m = pool[op["m"]]
@@ -353,6 +392,10 @@ def oracle(env, op, pre, post, status, res, ret, pool_ids, res_id):
 
     if name == "concat":
         ms = [pre[i] for i in op["args"]]
+        if not ms or not env.ns_gids(ms[0].ns):
+            # boundary outside the statement (nothing to concatenate / a namespace without taxa): the library raises
+            # IndexError today; only termination, unchanged arguments and agreement with the model are required
+            return bad
         ns0 = ms[0].ns
         taxa = env.ns_gids(ns0)
         same = all(m.ns == ns0 for m in ms)
@@ -566,6 +609,26 @@ def oracle(env, op, pre, post, status, res, ret, pool_ids, res_id):
 
 
 # ------------------------------------------------------------------------------------------------ model line
+def call_tokens(env, op, pre):
+    """one call of a `history` line: the single-operation syntax without the matrix it is applied to"""
+    name = op["op"]
+    if name in BINARY:
+        return "%s %s" % (name, enc_matrix(env, pre[op["o"]]))
+    if name in ("remove", "discard", "keep"):
+        return "%s %d %s" % (name, len(op["taxa"]), " ".join(str(g) for g in op["taxa"]))
+    if name in ("fill", "pack"):
+        return "%s %d %s %d" % (name, op["value"], "N" if op["size"] is None else op["size"], 1 if op["append"] else 0)
+    if name in ("fill_taxa", "clear"):
+        return name
+    if name == "new_subset":
+        return "new_subset %s %d %s" % (hex6(op["label"]), len(op["idx"]), " ".join(str(i) for i in op["idx"]))
+    if name in ("getitem", "delitem"):
+        return "%s %d" % (name, op["t"])
+    if name in ("setitem", "newseq"):
+        return "%s %d %d %s" % (name, op["t"], len(op["row"]), " ".join(str(c) for c in op["row"]))
+    raise RuntimeError("not a mutating call: " + name)
+
+
 def model_line(env, op, pre):
     name = op["op"]
     if name == "concat":
@@ -637,6 +700,8 @@ class Quiet(object):
 def nontrivial(op, pre):
     if op["op"] == "concat":
         return len(op["args"]) >= 2
+    if "m" not in op:
+        return False
     ms = [pre[op["m"]]] + ([pre[op["o"]]] if "o" in op else [])
     return sum(len(m.rows) for m in ms) >= 2 and any(r for m in ms for r in m.rows.values())
 
@@ -647,6 +712,9 @@ def run_history(ctx, dendropy, hist, pending, shrink=True, gen=None, nops=0):
     appended to hist["ops"].  Returns False when the history had to be abandoned (hang)."""
     env = Env(dendropy, hist["dtype"], hist["ns_sizes"])
     pool = [env.build(spec) for spec in hist["init"]]
+    # per pool slot: the matrix as it entered the pool and the mutating calls made on it since (the model re-runs them as
+    # ONE history, `run`, and must arrive at the same final state)
+    tracks = {j: {"start": enc_matrix(env, Snap(env, m)), "calls": []} for j, m in enumerate(pool)}
     for k in range(nops if gen is not None else len(hist["ops"])):
         pre = [Snap(env, m) for m in pool]
         if gen is not None:
@@ -658,7 +726,7 @@ def run_history(ctx, dendropy, hist, pending, shrink=True, gen=None, nops=0):
             del pool[:]   # rows may have grown without bound
             rep = {"dtype": hist["dtype"], "ns_sizes": hist["ns_sizes"], "init": [s.spec() for s in pre], "ops": [op],
                    "op": op["op"], "status": status}
-            ctx.fail("Timeout-" + op["op"], "%s did not return within %.0f s (pool state in the replay)" % (op["op"], TL), rep)
+            ctx.fail("Timeout-" + op["op"], "%s did not return within %.0f s of CPU time (pool state in the replay)" % (op["op"], TL), rep)
             ctx.case([hist["dtype"], [s.key() for s in pre], op], True, kind=op["op"])
             return False
         creating = op["op"] in ("concat", "export_idx", "export_sub")
@@ -692,12 +760,22 @@ def run_history(ctx, dendropy, hist, pending, shrink=True, gen=None, nops=0):
         line = impl_line(op, status, post, res, ret)
         if line is not None and pending is not None:
             pending.append((model_line(env, op, pre), {"dtype": hist["dtype"], "op": op, "pre": [s.spec() for s in pre]}, line))
+        if op["op"] in MUTATING and op["op"] != "items" and op["m"] in tracks and line is not None:
+            tracks[op["m"]]["calls"].append(call_tokens(env, op, pre))
         if creating and status == "ok":
             dst = op.get("dst", len(pool))
             if dst >= len(pool):
+                dst = len(pool)
                 pool.append(out)
             else:
                 pool[dst] = out
+            tracks[dst] = {"start": enc_matrix(env, res), "calls": []}
+    if pending is not None:
+        for j, tr in sorted(tracks.items()):
+            if len(tr["calls"]) >= 2:
+                pending.append(("history %s %d %s" % (tr["start"], len(tr["calls"]), " ".join(tr["calls"])),
+                                {"dtype": hist["dtype"], "op": {"op": "history"}, "slot": j, "ops": hist["ops"]},
+                                "ok " + Snap(env, pool[j]).state()))
     return True
 
 
@@ -876,7 +954,7 @@ def stream_case(ctx, dendropy, case, pending):
     status, res = "ok", None
     tmp = tempfile.mkdtemp(prefix="c19-") if via == "paths" else None
     try:
-        with time_limit(TL * 2):
+        with cpu_limit(TL * 2):
             if via == "paths":
                 paths = []
                 for i, d in enumerate(docs):
@@ -947,6 +1025,78 @@ def stream_case(ctx, dendropy, case, pending):
         else:
             want_line = status
         pending.append((line, {"op": {"op": entry}, "case": case}, want_line))
+
+
+def fasta_case(ctx, dendropy, case, pending):
+    """concatenate_from_streams on FASTA sources that are read into ONE namespace which grows with every new label:
+    case = {fasta: [[[label, seq], …] per stream], kind}"""
+    srcs = case["fasta"]
+    docs = ["".join(">%s\n%s\n" % (l, q) for l, q in src) for src in srcs]
+    rep = dict(case, op="concatenate_from_streams(fasta)", stream=True)
+    status, res = "ok", None
+    try:
+        with cpu_limit(TL * 2):
+            res = dendropy.DnaCharacterMatrix.concatenate_from_streams(
+                wrap(case.get("kind"), [io.StringIO(d) for d in docs]), "fasta")
+    except Timeout:
+        status = "Timeout"
+    except dendropy.utility.error.DataParseError:
+        status = "ParseError"
+    except ValueError:
+        status = "ValueError"
+    except Exception as e:
+        status = "Internal(%s)" % type(e).__name__
+    rep["status"] = status
+    sets = [sorted(l for l, _ in src) for src in srcs]
+    complete = all(x == sets[0] for x in sets)
+    ctx.case(["fasta", case], len(srcs) >= 2, kind="concatenate_from_streams(fasta)",
+             sample={"op": "concatenate_from_streams(fasta)", "sources": srcs})
+    ctx.count("concatenate_from_streams(fasta):%s:%s" % ("complete" if complete else "growing-namespace", status))
+    order = list(dict.fromkeys(l for src in srcs for l, _ in src))      # labels in order of first appearance
+    got, subs = {}, []
+    if status == "Timeout" or status.startswith("Internal") or status == "ParseError" or (complete and status != "ok"):
+        ctx.fail("Timeout-concatenate_from_streams" if status == "Timeout" else "exception",
+                 "concatenate_from_streams of FASTA sources %s: %s" % (srcs, status), rep)
+        return
+    if status == "ok":
+        got = {t.label: "".join(str(v) for v in seq.values()) for t, seq in res._taxon_sequence_map.items()}
+        want = {l: "".join(dict(src).get(l, "") for src in srcs) for l in order}
+        if got != want:
+            ctx.fail("concat-rows", "concatenate_from_streams(fasta): rows %s, concatenation in argument order is %s" % (got, want), rep)
+        spans, off = [], 0
+        for src in srcs:
+            spans.append(list(range(off, off + len(src[0][1]))))
+            off += len(src[0][1])
+        subs = [(k, sorted(cs.character_indices)) for k, cs in res.character_subsets.items()]
+        if complete and ([i for _, i in subs] != spans or len(set(k.lower() for k, _ in subs)) != len(subs)):
+            ctx.fail("concat-subsets", "concatenate_from_streams(fasta): subsets %s, expected spans %s" % (subs, spans), rep)
+    if pending is not None:
+        sym = {x: i + 1 for i, x in enumerate(y.symbol for y in dendropy.DnaCharacterMatrix.datatype_alphabet)}
+        gid = {l: i for i, l in enumerate(order)}
+        toks = []
+        for src in srcs:
+            t = ["-", str(len(src))]
+            for l, q in src:
+                t += [str(gid[l]), str(len(q))] + [str(sym[c]) for c in q]
+            toks.append("%d %s" % (len(t), " ".join(t)))
+        want_line = status
+        if status == "ok":
+            want_line = "ok " + state_string({gid[l]: [sym[c] for c in q] for l, q in got.items()}, subs)
+        pending.append(("concat_streams_ns %d %s" % (len(toks), " ".join(toks)),
+                        {"op": {"op": "concatenate_from_streams(fasta)"}, "case": case}, want_line))
+
+
+def gen_fasta_case(rng):
+    labels = ["t%d" % i for i in range(rng.randint(1, 4))]
+    k = rng.randint(1, 4)
+    same = rng.random() < 0.55
+    srcs = []
+    for _ in range(k):
+        ls = list(labels) if same else ([l for l in labels if rng.random() < 0.7] or [labels[0]])
+        rng.shuffle(ls)
+        w = rng.randint(1, 3)
+        srcs.append([[l, "".join(rng.choice("ACGT-?N") for _ in range(w))] for l in ls])
+    return {"fasta": srcs, "kind": rng.choice(["list", "tuple", "gen", "iter"])}
 
 
 def gen_stream_case(rng):
@@ -1072,6 +1222,12 @@ def exhaustive(ctx, dendropy, pending):
         n += go(next(dtypes), [full(l, 1), full(l, 1, ns=1)], [{"op": "concat", "args": [0, 1]}])
         n += go(next(dtypes), [full(l, 1), mat([[0, [1]]], label=l)], [{"op": "concat", "args": [0, 1]}])
         n += go(next(dtypes), [full(l, 1), mat([[0, [1]], [1, [1, 2]]], label=l)], [{"op": "concat", "args": [1, 0]}])
+    # boundaries: nothing to concatenate, a namespace without taxa
+    n += go(next(dtypes), [full(None, 1)], [{"op": "concat", "args": []}])
+    for ops in ([{"op": "concat", "args": [0]}], [{"op": "concat", "args": [0, 0]}], [{"op": "fill_taxa", "m": 0}],
+                [{"op": "pack", "m": 0, "value": 1, "size": 2, "append": True}], [{"op": "items", "m": 0}, {"op": "sizes", "m": 0}],
+                [{"op": "keep", "m": 0, "taxa": []}], [{"op": "export_idx", "m": 0, "idx": [0]}]):
+        n += go(next(dtypes), [mat([]), mat([], label="x")], ops, ns_sizes=(0, 0))
     # depth-2 histories from every pattern: any mutating op followed by an op using the other matrix (aliasing)
     second = [{"op": "extend", "m": 0, "o": 1}, {"op": "fill", "m": 0, "value": 2, "size": 3, "append": True},
               {"op": "extend_matrix", "m": 1, "o": 0}, {"op": "discard", "m": 0, "taxa": [0]}]
@@ -1096,15 +1252,18 @@ def ncodes_table(dendropy):
 def run(ctx):
     dendropy = __import__("dendropy")
     rng = ctx.rng
-    ctx.set_budget(25, 420)
+    ctx.set_budget(18, 420)
     pending = []
     ncodes = ncodes_table(dendropy)
-    nhist = ctx.pick(8000, 400000)
+    nhist = ctx.pick(6500, 400000)
     max_taxa, max_w, max_ops = ctx.pick(4, 7), ctx.pick(4, 6), ctx.pick(8, 14)
     hangs = 0
     for k in range(nhist):
         if ctx.out_of_time() or hangs >= 5:
             break
+        if k % 12 == 5:
+            fasta_case(ctx, dendropy, gen_fasta_case(rng), pending)
+            continue
         if k % 12 == 11:
             stream_case(ctx, dendropy, gen_stream_case(rng), pending)
             if any(f["kind"].startswith("Timeout") and f["replay"].get("stream") for f in ctx.failures[-1:]):
@@ -1133,7 +1292,9 @@ def replay(ctx, rec):
     dendropy = __import__("dendropy")
     c = rec["replay"]
     pending = []
-    if c.get("stream"):
+    if c.get("fasta"):
+        fasta_case(ctx, dendropy, {"fasta": c["fasta"], "kind": c.get("kind")}, pending)
+    elif c.get("stream"):
         stream_case(ctx, dendropy, {"labels": c["labels"], "titles": c["titles"], "rows": c["rows"],
                                     "via": c.get("via", "streams"), "kind": c.get("kind"), "bad": c.get("bad", {}),
                                     "missing": c.get("missing", [])}, pending)
